@@ -299,7 +299,7 @@ func TestMain(m *testing.M) {
 			R.Require(d.name+"/len_rewrite", d.name+"/tag_swap")
 		}
 	}
-	R.Require("ber_depth>=1000")
+	R.Require("ber_depth>=1000", "vec_len_sweep")
 	R.Assume("inputs that declare more than 4096 key-stretching iterations are skipped and counted as discarded (the statement exempts format-carried stretching)")
 	hx.Main(m, R)
 }
@@ -393,6 +393,51 @@ func TestC18_Exhaustive(t *testing.T) {
 		}
 	}
 	R.Subspace("every truncation, 7-value substitution of every byte and 4 length rewrites of every TLV for each seed <= 2 KiB", n, true)
+}
+
+// every position x width 1..3 x a catalogue of values relative to the bytes that follow: length-prefixed vectors
+// (TLS messages, raw ciphertexts, hex/compressed encodings) have no TLV structure a generator could walk, and the
+// interesting values of a length field (just above what remains, twice what remains, ...) are not in the substitution
+// alphabet. Quick: the non-ASN.1 decoders; thorough: every decoder, seeds up to 2 KiB.
+func TestC18_VectorLengths(t *testing.T) {
+	var n int64
+	for i := range decoders {
+		d := &decoders[i]
+		if d.asn1 && !hx.Thorough() {
+			continue
+		}
+		if hx.Shards() > 1 && i%hx.Shards() != hx.Shard() {
+			continue
+		}
+		for _, seed := range d.seeds {
+			if len(seed) > 2048 || len(seed) < 2 {
+				continue
+			}
+			for w := 1; w <= 3 && w <= len(seed); w++ {
+				for pos := 0; pos+w <= len(seed); pos++ {
+					rem := len(seed) - pos - w
+					cur := 0
+					for j := 0; j < w; j++ {
+						cur = cur<<8 | int(seed[pos+j])
+					}
+					for _, v := range []int{rem + 1, rem + 2, rem - 1, 2 * rem, 2*rem - 2, 2*rem + 2, rem + rem/2, rem / 2, cur + 1, cur + 2, cur - 1, cur - 2, 2 * cur, 1<<(8*uint(w)) - 1} {
+						if v < 0 || v == cur || v >= 1<<(8*uint(w)) {
+							continue
+						}
+						m := append([]byte(nil), seed...)
+						for j, x := w-1, v; j >= 0; j-- {
+							m[pos+j] = byte(x)
+							x >>= 8
+						}
+						runOne(t, d, m, "vec_len")
+						n++
+					}
+				}
+			}
+			R.Case(true, hx.HashKey("veclen", d.name, seed), "vec_len_sweep")
+		}
+	}
+	R.Subspace("every position x width 1..3 x 14 length-like values for each seed <= 2 KiB (quick: non-ASN.1 decoders only)", n, true)
 }
 
 func TestC18_DeepBER(t *testing.T) {
